@@ -270,3 +270,47 @@ def toStringLines (fmt : Tree → Except Err Str) (conll : Bool) (batch : List (
 
 end Print
 end Depccg
+
+namespace Depccg
+open Str
+namespace Print
+
+/-! ### html: the category segments of `_mathml_cat` -/
+
+def isBracket (c : Nat) : Bool := c == cLBr || c == cRBr
+
+/-- one `\[.+?\]` group at the head of the string: `[`, at least one character, then lazily up
+    to the first `]` -/
+def bracketGroup : Str → Option (Str × Str)
+  | c :: d :: rest =>
+    if c == cLBr && d != 10 then
+      match findChar cRBr rest with
+      | some k => if (rest.take k).all (· != 10) then some (c :: d :: rest.take (k + 1), rest.drop (k + 1)) else none
+      | none => none
+    else none
+  | _ => none
+
+/-- `(\[.+?\])*` : consume consecutive groups, the last one is the captured one -/
+def bracketGroups : Nat → Str → Str → Str × Str
+  | 0, last, s => (last, s)
+  | fuel + 1, last, s =>
+    match bracketGroup s with
+    | some (g, rest) => bracketGroups fuel g rest
+    | none => (last, s)
+
+/-- `re.findall(r'([^\[\]]+)(\[.+?\])*', cat)` : (category part, last feature group) pairs -/
+def mathmlSegments : Nat → Str → List (Str × Str)
+  | 0, _ => []
+  | _, [] => []
+  | fuel + 1, c :: cs =>
+    if isBracket c then mathmlSegments fuel cs        -- no match can start here: skip the character
+    else
+      let run := (c :: cs).takeWhile (fun x => !isBracket x)
+      let rest := (c :: cs).dropWhile (fun x => !isBracket x)
+      let (feat, rest') := bracketGroups rest.length [] rest
+      (run, feat) :: mathmlSegments fuel rest'
+
+def mathmlCat (s : Str) : List (Str × Str) := mathmlSegments (s.length + 1) s
+
+end Print
+end Depccg
